@@ -96,6 +96,77 @@ def body_catch(backing, n, stage, sel, with_key, x0, x1, x2, x3, r0, r1, r2, r3,
     return err is None and got == exp
 
 
+class K1(KeyError):
+    pass
+
+
+class K1Sub(K1):
+    pass
+
+
+class K2(LookupError):
+    pass
+
+
+def body_catch_lookup(n, sel, split, x0, x1, x2, x3, r0, r1, r2, r3):
+    """the raising stage sits below a concatenation of two dict datasets and raises lookup-type exceptions (KeyError family):
+    key iteration (items) of the catch goes through string-key lookup of every stage in between"""
+    xs = rt.mk(n, [x0, x1, x2, x3])
+    rs = rt.mk(n, [r0, r1, r2, r3])
+    for r in rs:
+        rt.assume(0 <= r)
+        rt.assume(r <= 3)
+    caught = {'keyerror': KeyError, 'k1': K1, 'k1sub': K1Sub, 'tuple': (K1, ValueError)}[sel]
+    keys = rt.KEYS[:n]
+
+    def f(ex):
+        x, r = ex
+        if r == 1:
+            raise K1(x)
+        if r == 2:
+            raise K1Sub(x)
+        if r == 3:
+            raise K2(x)
+        return x
+    left = DictDataset({k: (x, r) for k, x, r in list(zip(keys, xs, rs))[:split]})
+    right = DictDataset({k: (x, r) for k, x, r in list(zip(keys, xs, rs))[split:]})
+    ds = left.map(f).concatenate(right.map(f).map(lambda v: v)).catch(caught)
+    exp, err = [], None
+    for i in range(n):
+        x, r = xs[i], rs[i]
+        if sel == 'keyerror':
+            drop = r in (1, 2)
+        elif sel == 'k1':
+            drop = r in (1, 2)
+        elif sel == 'k1sub':
+            drop = r == 2
+        else:
+            drop = r in (1, 2)
+        if drop:
+            continue
+        if r != 0:
+            err = (r, x)
+            break
+        exp.append((keys[i], x))
+    got = []
+    try:
+        for kv in ds.items():
+            got.append(kv)
+    except (K1, K2) as e:
+        rt.reached()
+        if err is None or got != exp or e.args[0] != err[1]:
+            return False
+        if err[0] == 1:
+            return type(e) is K1
+        if err[0] == 2:
+            return type(e) is K1Sub
+        return type(e) is K2
+    rt.reached()
+    if err is not None or got != exp:
+        return False
+    return [v for _, v in got] == list(ds) if err is None else True
+
+
 def body_filter_equiv(backing, n, x0, x1, x2, x3, t):
     """lazy filter, eager filter and FilterException under catch() select the same examples"""
     xs = rt.mk(n, [x0, x1, x2, x3])
@@ -152,6 +223,9 @@ XR = [(f'x{i}', 'int') for i in range(4)] + [(f'r{i}', 'int') for i in range(4)]
 FAMILIES = [
     Family('catch', body_catch, ['backing', 'n', 'stage', 'sel', 'with_key'], XR + [('c', 'int')], _conds, timeout=dict(quick=60, thorough=300),
            desc='catch(E) yields exactly the examples that do not raise a listed type, in order; others propagate unchanged at their position'),
+    Family('catch_lookup', body_catch_lookup, ['n', 'sel', 'split'], XR,
+           lambda tier, seed: [(n, sel, sp) for n in range(0, (4 if tier == 'quick' else 5)) for sel in ('keyerror', 'k1', 'k1sub', 'tuple') for sp in range(0, n + 1)],
+           timeout=dict(quick=60, thorough=300), desc='KeyError-family exceptions below a concatenation, key iteration of catch()'),
     Family('filter_equiv', body_filter_equiv, ['backing', 'n'], [(f'x{i}', 'int') for i in range(4)] + [('t', 'int')],
            lambda tier, seed: [(b, n) for b in ('list', 'dict') for n in range(0, (4 if tier == 'quick' else 5))], timeout=dict(quick=60, thorough=300),
            desc='lazy filter == eager filter == FilterException under catch()'),
